@@ -1026,7 +1026,11 @@ def _row_render(ctx):
         probe.summary(f, (), {})
         cell_nodes = [n for _g, n in probe.event_nodes.get('cell', [])]
         if not cell_nodes:
-            o.refute(f, f.node, 'no cell emission', "_TextTableRow.repr appends no cell text to its result")
+            if probe.event_nodes.get('border') or probe.event_nodes.get('other'):
+                o.refute(f, f.node, 'no cell emission', "_TextTableRow.repr appends no cell text to its result")
+            else:
+                o.undecided(f, f.node, 'no emission', f"nothing is appended to the returned variable `{acc.name}`: the way the row text is "
+                                                      f"built is not understood")
             return
         loops = []
         for n in cell_nodes:
